@@ -3,15 +3,18 @@ package vc
 import (
 	"go/types"
 	"strings"
+
+	"golang.org/x/tools/go/ssa"
 )
 
 // libCall is the context handed to a library model.
 type libCall struct {
-	fr   *frame
-	st   *PState
-	args []Val
-	sig  *types.Signature
-	name string
+	ssaArgs []ssa.Value
+	fr      *frame
+	st      *PState
+	args    []Val
+	sig     *types.Signature
+	name    string
 }
 
 func (c *libCall) arg(i int) T {
@@ -31,7 +34,9 @@ func (c *libCall) arg(i int) T {
 	return c.fr.ex.reify(c.st, c.args[i], t)
 }
 
-func (c *libCall) panicUnless(cond T, why string) { c.fr.panicUnless(c.st, cond, why+" ("+shortLib(c.name)+")") }
+func (c *libCall) panicUnless(cond T, why string) {
+	c.fr.panicUnless(c.st, cond, why+" ("+shortLib(c.name)+")")
+}
 
 func shortLib(n string) string {
 	n = strings.ReplaceAll(n, "cosmossdk.io/math.", "math.")
@@ -51,12 +56,12 @@ const (
 	sdkCtx  = "(github.com/cosmos/cosmos-sdk/types.Context)."
 )
 
-func intv(v T) T  { return App(SIntV, "mkIntV", Bool(false), v) }
-func decv(v T) T  { return App(SDecV, "mkDecV", Bool(false), v) }
-func ival(x T) T  { return App(SInt, "val", x) }
-func dval(x T) T  { return App(SInt, "dval", x) }
-func inil(x T) T  { return App(SBool, "isnil", x) }
-func dnil(x T) T  { return App(SBool, "disnil", x) }
+func intv(v T) T    { return App(SIntV, "mkIntV", Bool(false), v) }
+func decv(v T) T    { return App(SDecV, "mkDecV", Bool(false), v) }
+func ival(x T) T    { return App(SInt, "val", x) }
+func dval(x T) T    { return App(SInt, "dval", x) }
+func inil(x T) T    { return App(SBool, "isnil", x) }
+func dnil(x T) T    { return App(SBool, "disnil", x) }
 func fits256(x T) T { return App(SBool, "fits256", x) }
 func fits315(x T) T { return App(SBool, "fits315", x) }
 
@@ -433,8 +438,10 @@ func init() {
 		libModels[sdkCtx+nn] = func(c *libCall) (Val, bool) { return c.fr.freshResults(c.st, c.sig, nn), true }
 	}
 	libModels[sdkPkg+"UnwrapSDKContext"] = func(c *libCall) (Val, bool) {
-		// the wrapped context is the handler's context: a fresh Ctx value whose cell is an incoming cell
-		r := c.st.FreshOf("uctx", c.sig.Results().At(0).Type())
+		// the handler's context: a deterministic function of the wrapped context value, living in an incoming cell
+		g := c.arg(0)
+		r := WithGo(c.st.Name("uctx", App(SCtx, "unwrap_ctx", g)), c.sig.Results().At(0).Type())
+		c.st.TypeFacts(r, r.Go, 0)
 		c.st.Assume(And(App(SBool, ">=", App(SInt, "ctx_cell", r), IntLit(0)), App(SBool, "<", App(SInt, "ctx_cell", r), T{S: "CELL0", Sort: SInt})))
 		return r, true
 	}
@@ -443,6 +450,9 @@ func init() {
 	// ---- store helpers --------------------------------------------------------------------
 	libModels["github.com/cosmos/cosmos-sdk/store/prefix.NewStore"] = func(c *libCall) (Val, bool) {
 		v, ok := c.args[0].(*ViewVal)
+		if iv, isI := c.args[0].(*IfaceVal); isI {
+			v, ok = iv.Payload.(*ViewVal)
+		}
 		if !ok {
 			return nil, false
 		}
@@ -451,7 +461,7 @@ func init() {
 		if v.Prefix.IsZero() {
 			nv.Prefix = p
 		} else {
-			nv.Prefix = App(SBytes, "cat", v.Prefix, p)
+			nv.Prefix = Cat(v.Prefix, p)
 		}
 		return &nv, true
 	}
@@ -540,6 +550,108 @@ func init() {
 		return WithGo(r, types.Typ[types.String]), true
 	}
 
+	libModels[sdkPkg+"MustAccAddressFromBech32"] = func(c *libCall) (Val, bool) {
+		sv := c.arg(0)
+		c.panicUnless(Not(App(SBool, "bech32err", sv)), "MustAccAddressFromBech32 on an invalid address")
+		return WithGo(App(SBytes, "bech32addr", sv), c.sig.Results().At(0).Type()), true
+	}
+
+	// slices.Contains on []string: an uninterpreted predicate of (backing array, offset, length, needle)
+	libModels["slices.Contains[[]string string]"] = func(c *libCall) (Val, bool) {
+		sl, x := c.arg(0), c.arg(1)
+		return c.fr.ex.sliceContains(c.st, sl, x), true
+	}
+
+	// ---- math/big.Int (value semantics; mutation through aliases of the receiver is not modelled) ----
+	bigPkg := "(*math/big.Int)."
+	bigSet := func(c *libCall, r T) Val {
+		// z.Op(x, y) stores into z when z is a local new(big.Int) and returns the value
+		if pv, ok := c.args[0].(*PtrVal); ok && pv.Kind == PLocal && len(pv.Path) == 0 {
+			c.st.cells[pv.Cell] = WithGo(r, types.NewPointer(pv.Root))
+		}
+		c.fr.ex.Assumed["math/big.Int modelled with value semantics (aliasing of receivers not modelled)"] = true
+		return WithGo(r, c.sig.Results().At(0).Type())
+	}
+	bigBin := func(op string) libModel {
+		return func(c *libCall) (Val, bool) {
+			x, y := c.arg(1), c.arg(2)
+			c.panicUnless(And(Not(inil(x)), Not(inil(y))), "nil *big.Int operand")
+			var r T
+			switch op {
+			case "quo":
+				c.panicUnless(Not(Eq(ival(y), IntLit(0))), "big.Int division by zero")
+				r = App(SInt, "tdiv", ival(x), ival(y))
+			case "div":
+				c.panicUnless(Not(Eq(ival(y), IntLit(0))), "big.Int division by zero")
+				r = App(SInt, "div", ival(x), ival(y))
+			default:
+				r = App(SInt, op, ival(x), ival(y))
+			}
+			return bigSet(c, intv(c.st.Name("b", r))), true
+		}
+	}
+	libModels[bigPkg+"Mul"] = bigBin("*")
+	libModels[bigPkg+"Add"] = bigBin("+")
+	libModels[bigPkg+"Sub"] = bigBin("-")
+	libModels[bigPkg+"Quo"] = bigBin("quo")
+	libModels[bigPkg+"Div"] = bigBin("div")
+	libModels[bigPkg+"Set"] = func(c *libCall) (Val, bool) { return bigSet(c, intv(ival(c.arg(1)))), true }
+	libModels[bigPkg+"SetInt64"] = func(c *libCall) (Val, bool) { return bigSet(c, intv(c.arg(1))), true }
+	libModels[bigPkg+"SetUint64"] = func(c *libCall) (Val, bool) { return bigSet(c, intv(c.arg(1))), true }
+	libModels[bigPkg+"Neg"] = func(c *libCall) (Val, bool) { return bigSet(c, intv(App(SInt, "-", ival(c.arg(1))))), true }
+	libModels[bigPkg+"Abs"] = func(c *libCall) (Val, bool) { return bigSet(c, intv(App(SInt, "iabs", ival(c.arg(1))))), true }
+	libModels[bigPkg+"Cmp"] = func(c *libCall) (Val, bool) {
+		x, y := c.arg(0), c.arg(1)
+		c.panicUnless(And(Not(inil(x)), Not(inil(y))), "nil *big.Int operand")
+		return WithGo(Ite(App(SBool, "<", ival(x), ival(y)), IntLit(-1), Ite(Eq(ival(x), ival(y)), IntLit(0), IntLit(1))), types.Typ[types.Int]), true
+	}
+	libModels[bigPkg+"Sign"] = func(c *libCall) (Val, bool) {
+		x := c.arg(0)
+		c.panicUnless(Not(inil(x)), "nil *big.Int receiver")
+		return WithGo(Ite(App(SBool, "<", ival(x), IntLit(0)), IntLit(-1), Ite(Eq(ival(x), IntLit(0)), IntLit(0), IntLit(1))), types.Typ[types.Int]), true
+	}
+	libModels[bigPkg+"Int64"] = func(c *libCall) (Val, bool) {
+		return c.fr.wrap(ival(c.arg(0)), types.Typ[types.Int64]), true
+	}
+	libModels[bigPkg+"Uint64"] = func(c *libCall) (Val, bool) {
+		return c.fr.wrap(ival(c.arg(0)), types.Typ[types.Uint64]), true
+	}
+	libModels[bigPkg+"IsInt64"] = func(c *libCall) (Val, bool) {
+		lo, hi := rangeOf(64, true)
+		return And(App(SBool, "<=", lo, ival(c.arg(0))), App(SBool, "<=", ival(c.arg(0)), hi)), true
+	}
+	libModels["math/big.NewInt"] = func(c *libCall) (Val, bool) {
+		return WithGo(intv(c.arg(0)), c.sig.Results().At(0).Type()), true
+	}
+
+	// ---- encoding/binary big endian ---------------------------------------------------------
+	libModels["(encoding/binary.bigEndian).PutUint64"] = func(c *libCall) (Val, bool) {
+		// PutUint64(b, v) overwrites the 8-byte buffer b in place: the SSA value of b is rebound to the encoded
+		// bytes (sound when b is a fresh make([]byte, 8) that is only used afterwards, which is checked here)
+		if len(c.ssaArgs) < 3 {
+			return nil, false
+		}
+		switch b := c.ssaArgs[1].(type) {
+		case *ssa.MakeSlice:
+		case *ssa.Slice: // make([]byte, 8) with a constant length is "new [8]byte; slice"
+			if _, ok := b.X.(*ssa.Alloc); !ok {
+				return nil, false
+			}
+		default:
+			return nil, false
+		}
+		v := c.arg(2)
+		c.st.env[c.ssaArgs[1]] = WithGo(App(SBytes, "kf", IntLit(-1), App(SBytes, "bint", v), bnilT, bnilT, bnilT), c.ssaArgs[1].Type())
+		return T{S: "unit", Sort: SUnit}, true
+	}
+	libModels["(encoding/binary.bigEndian).Uint64"] = func(c *libCall) (Val, bool) {
+		b := c.arg(1)
+		r := c.st.FreshOf("be2u", types.Typ[types.Uint64])
+		c.st.Assume(Implies(And(App(SBool, "(_ is kf)", b), Eq(App(SInt, "kf_id", b), IntLit(-1)), App(SBool, "(_ is bint)", App(SBytes, "kf_1", b))), Eq(r, App(SInt, "bint_v", App(SBytes, "kf_1", b)))))
+		c.st.Assume(Eq(r, App(SInt, "wrapu", App(SInt, "be2u64", b), T{S: "18446744073709551616", Sort: SInt})))
+		return r, true
+	}
+
 	// ---- time -----------------------------------------------------------------------------
 	tm := "(time.Time)."
 	libModels[tm+"Before"] = func(c *libCall) (Val, bool) { return App(SBool, "<", c.arg(0), c.arg(1)), true }
@@ -583,4 +695,11 @@ func ModuleOfPkg(path string) string {
 		return parts[1]
 	}
 	return s
+}
+
+func (ex *Exec) sliceContains(st *PState, sl T, x T) T {
+	_, h, _ := st.sliceHeap(types.Typ[types.String])
+	arr := Select(h, App(SInt, "sbase", sl), "(Array Int Bytes)")
+	ex.Assumed["slices.Contains modelled as an uninterpreted membership predicate"] = true
+	return App(SBool, "slice_contains", arr, App(SInt, "soff", sl), App(SInt, "slen", sl), x)
 }
